@@ -198,6 +198,9 @@ func runCheck(o *CheckOpts) int {
 					if o.Tier == "thorough" {
 						steps = []int{timeout, timeout * 3}
 					}
+					if os.Getenv("GOVC_FAST") != "" {
+						steps = steps[:1] // development aid: a single short attempt
+					}
 					if kf := knownObl(known, o.Prop, ob.Name); kf {
 						steps = steps[:1] // recorded finding: one attempt is enough to see whether it still fails
 					}
@@ -210,6 +213,21 @@ func runCheck(o *CheckOpts) int {
 						tried = append(tried, r.Tried...)
 						if r.Status == "unsat" || r.Status == "sat" {
 							break
+						}
+						if k == 0 && !ob.Cover {
+							// cone-of-influence slices of growing depth: only unsat is conclusive
+							for _, d := range []int{2, 3, 5} {
+								rs := solve(ob.W.queryTextS(ob, false, false, d), tmp, fmt.Sprintf("%s.s%d", ob.Name, d), tmo, o.Seed, false)
+								if rs.Status == "unsat" {
+									rs.Tried = append(tried, append([]string{fmt.Sprintf("sliced(depth %d)", d)}, rs.Tried...)...)
+									r = rs
+									break
+								}
+							}
+							if r.Status == "unsat" {
+								tried = r.Tried
+								break
+							}
 						}
 						// every solver gave up quickly (unknown, no timeout): more time will not help
 						gaveUp := true
